@@ -12,7 +12,7 @@ p-bit binary number -- the "evaluated exactly" clause):
     gegenbauer): exact value of the three-term recurrence (jacobi: of the binomial sum) computed with Python Fractions; rational
     points where the exact value is 0 (must return exactly 0);
   * terminating series hyp2f1(-n,b,c,x), hyp1f1(-n,b,x), hyp2f0(-n,b,x), hyp1f2, hyp2f2, hyp2f3, hyp3f2 and
-    hyper([-n,a2..],[b1..],x) (p <= 4, q <= 3) with rational parameters given as int / (p,q) and dyadic x (any sign, |x| up to
+    hyper([-n,a2..],[b1..],x) (p <= 4, q <= 3; for p > q+1 other than 2F0 the degree is kept <= the precision, see known findings) with rational parameters given as int / (p,q) and dyadic x (any sign, |x| up to
     ~40): exact value of the finite sum; also two non-positive integer upper parameters and a negative integer lower
     parameter -m with m > n (finite sum as documented by mpmath);
   * legenp(n,m,x) for integers 0 <= m <= n (type 2 on (-1,1), type 3 on x > 1): (-1)^m (1-x^2)^(m/2) d^m P_n/dx^m resp.
@@ -30,7 +30,8 @@ bound proves that one of the named calls violates the tolerance, a residual with
   contiguous relations of hyp1f1 (in a), hyp2f1 (in a) and hyp0f1 (in b) at generic rational parameters and dyadic x.
 KNOWN FINDINGS on the unchanged tree (known_findings_B3.json, each in a kind with its own `regime`): exact-zero values raise
 ValueError instead of returning 0; jacobi(n,a,b,x) = nan for a negative integer a in [-n,-1] and integer b; legendre(odd n >= 3, x)
-returns x for |x| < 2^(-2(p+10)-10); gegenbauer returns 0 when a is within ~2^-(p+40) of a pole of Gamma(2a).
+returns x for |x| < 2^(-2(p+10)-10); gegenbauer returns 0 when a is within ~2^-(p+40) of a pole of Gamma(2a); hyper() with p > q+1 (3F0, 3F1, 4F0, 4F1, 4F2) and a
+terminating degree n >= prec+30 raises NoConvergence or is silently inaccurate.
 NOT DECIDED: hyperu, whitm, whitw, meijerg, appellf1..4, hyper2d, bihyper, pcfd/pcfu/pcfv/pcfw, legenp/legenq off the
 polynomial (integer n, m) case, hermite/laguerre/... at non-integer degree, complex parameters/arguments, any single value of
 a non-terminating series at generic parameters (only the metamorphic residuals above), hyp2f1 on the cut x > 1, divergent
@@ -538,15 +539,46 @@ reg("hyp3f2_term", "hyp3f2", lambda c, n, a2, a3, b1, b2, x: c.hyp3f2(-n, PQ(a2)
     lambda rng, p: [g_deg(rng, 80), g_q(rng), g_q(rng), g_q(rng, True), g_q(rng, True), g_xh(rng, p)], w=1.6, regime=TERM, exact=True)
 
 
-def g_hyper(rng, p):
-    pp = rng.randint(1, 4); qq = rng.randint(0, 3)
-    a_s = [Fraction(-g_deg(rng, 60))] + [g_q(rng) for _ in range(pp - 1)]
+def borel(pp, qq):
+    """hyper() sends p > q+1 (except 2F0) to _hyp_borel, which caps the number of terms at the working precision"""
+    return pp > qq + 1 and (pp, qq) != (2, 0)
+
+
+def g_hyper_pq(rng, p, pp, qq, n):
+    a_s = [Fraction(-n)] + [g_q(rng) for _ in range(pp - 1)]
     rng.shuffle(a_s)
     return [tuple(a_s), tuple(g_q(rng, True) for _ in range(qq)), g_xh(rng, p)]
 
 
-reg("hyper_term", "hyper", lambda c, a_s, b_s, x: c.hyper([PQ(a) for a in a_s], [PQ(b) for b in b_s], M(c, x)),
-    lambda a_s, b_s, x: q_hyper(list(a_s), list(b_s), x), g_hyper, w=2.0, regime=TERM, exact=True)
+def g_hyper(rng, p):
+    while True:
+        pp = rng.randint(1, 4); qq = rng.randint(0, 3)
+        if not borel(pp, qq): return g_hyper_pq(rng, p, pp, qq, g_deg(rng, 60))
+
+
+def g_hyper_borel(rng, p):
+    pp, qq = rng.choice([(3, 0), (3, 1), (4, 0), (4, 1), (4, 2)])
+    return g_hyper_pq(rng, p, pp, qq, g_deg(rng, min(60, p)))
+
+
+def g_hyper_borel_long(rng, p):
+    pp, qq = rng.choice([(3, 0), (3, 1), (4, 0), (4, 1), (4, 2)])
+    return g_hyper_pq(rng, p, pp, qq, rng.randint(p + 30, p + 100))
+
+
+def c_hyper(c, a_s, b_s, x):
+    return c.hyper([PQ(a) for a in a_s], [PQ(b) for b in b_s], M(c, x))
+
+
+def r_hyper(a_s, b_s, x):
+    return q_hyper(list(a_s), list(b_s), x)
+
+
+reg("hyper_term", "hyper", c_hyper, r_hyper, g_hyper, w=2.0, regime=TERM, exact=True)
+# p > q+1 (3F0, 3F1, 4F0, 4F1, 4F2): degree up to the precision / well above it (known finding C22-hyper-borel-degree)
+reg("hyper_term_borel", "hyper", c_hyper, r_hyper, g_hyper_borel, w=0.8, regime="terminating-p>q+1", exact=True)
+reg("hyper_term_borel_long", "hyper", c_hyper, r_hyper, g_hyper_borel_long, w=0.3, regime="terminating-p>q+1-degree>prec", exact=True,
+    precs=[15, 53, 113])
 
 # ---- 3. elementary special cases
 CF = "closed-form"
